@@ -60,3 +60,11 @@ func VerifConfigOwner(b []byte) (string, error) {
 	}
 	return c.OwnerId, nil
 }
+
+// VerifUnlock runs the real destination.unlock (not dry) on a destination with the given fields
+// and returns the destination afterwards and the amount to pay.
+func VerifUnlock(d VerifDest, now, end common.Timestamp) (VerifDest, currency.Coin, error) {
+	x := &destination{ID: d.ID, Amount: d.Amount, Vested: d.Vested, Last: d.Last, Move: d.Move}
+	amt, err := x.unlock(now, end, false)
+	return VerifDest{ID: x.ID, Amount: x.Amount, Vested: x.Vested, Last: x.Last, Move: x.Move}, amt, err
+}
